@@ -542,7 +542,45 @@ FIXED_CRASH_SCRIPTS = [
      {"k": "deliver", "rcpts": ["u", "v"], "msg": "S", "extra": 0},
      {"k": "restart"},
      {"k": "deliver", "rcpts": ["u"], "msg": "S", "extra": 0}],
+    # COPY out of, EXPUNGE in, RENAME and DELETE of a NON-EMPTY mailbox holding acknowledged messages
+    # (multipart with out-of-line part, and single part), and RENAME INBOX with messages.  Every storage
+    # I/O call inside these operations is a crash point in BOTH tiers (TARGETED below).
+    [{"k": "login", "u": "u"},
+     {"k": "deliver", "rcpts": ["u"], "msg": "S", "extra": 0},
+     {"k": "create", "u": "u", "name": "Archive"},
+     {"k": "append", "u": "u", "folder": "Archive", "flags": [], "msg": "MP", "extra": 0},
+     {"k": "append", "u": "u", "folder": "Archive", "flags": ["\\Seen"], "msg": "S", "extra": 1},
+     {"k": "append", "u": "u", "folder": "Archive", "flags": [], "msg": "BIG", "extra": 0},
+     {"k": "select", "u": "u", "name": "Archive"},
+     {"k": "uidcopy", "u": "u", "set": [("range", 1, 2)], "dest": "Trash"},
+     {"k": "copy", "u": "u", "set": [("range", 3, 3)], "dest": "Drafts"},
+     {"k": "uidstore", "u": "u", "set": [("range", 1, 1)], "mode": "+", "flags": ["\\Deleted"]},
+     {"k": "expunge", "u": "u"},
+     {"k": "rename", "u": "u", "old": "Archive", "new": "Arch2"},
+     {"k": "delete", "u": "u", "name": "Arch2"},
+     {"k": "append", "u": "u", "folder": "INBOX", "flags": [], "msg": "S", "extra": 0},
+     {"k": "rename", "u": "u", "old": "INBOX", "new": "old"},
+     {"k": "select", "u": "u", "name": "Trash"},
+     {"k": "uidstore", "u": "u", "set": [("range", 1, 2)], "mode": "+", "flags": ["\\Deleted"]},
+     {"k": "close", "u": "u"},
+     {"k": "deliver", "rcpts": ["u"], "msg": "S", "extra": 0}],
 ]
+TARGETED_SCRIPT = 3          # index into FIXED_CRASH_SCRIPTS
+TARGETED_KINDS = ("uidcopy", "copy", "uidstore", "expunge", "close", "rename", "delete")
+
+
+def step_windows(script, acks, kinds):
+    """every storage I/O call (as crash point K) issued inside the steps of the given kinds: all K in
+    (I/O count at the previous acknowledgement, I/O count at this step's acknowledgement]"""
+    ks = set()
+    prev = 0
+    for a in sorted(acks, key=lambda x: int(x["id"])):
+        sid = int(a["id"])
+        io = a.get("io", prev)
+        if script[sid]["k"] in kinds:
+            ks.update(range(prev + 1, io + 1))
+        prev = io
+    return ks
 
 
 # --------------------------------------------------------------------------
@@ -621,9 +659,7 @@ def trace_suite(chk, scripts, label="trace", base=None):
             searched += 1
             found = search_crash_in_step(chk, scripts[si], step, base)
         if found:
-            K, text, usr = found
-            chk.violation("kill before storage I/O call %d, inside operation %r whose %s differs from Model/Micro.v: %s" % (K, st, kind, text),
-                          {"suite": "crash", "script": scripts[si][:step + 1], "K": K, "user": usr})
+            chk.notes.append("trace disagreement (%s of %r): crash points inside that operation were replayed and property violations were reported" % (kind, st))
         else:
             chk.broken_obligation(
                 "correspondence %s no longer checks: %s of operation %r (step %d, store of %s) differs from Model/Micro.v; "
@@ -635,7 +671,8 @@ def trace_suite(chk, scripts, label="trace", base=None):
 def search_crash_in_step(chk, script, step, base):
     """Replay every crash point inside operation `step` of `script` (all I/O
     calls between the acknowledgement before it and its own); observation-only
-    audit.  Returns (K, text, user) of the first failure."""
+    audit and Spec/Crash.v's crash_spec_b on the recovered stores (crash_suite).  Returns "reported"
+    if that produced a VIOLATION with a failing input."""
     from concurrent.futures import ThreadPoolExecutor
     sub = script[:step + 1]
     n, acks = count_io(sub, base)
@@ -649,13 +686,12 @@ def search_crash_in_step(chk, script, step, base):
     if len(Ks) > 90:
         stride = len(Ks) / 90.0
         Ks = sorted(set(Ks[int(j * stride)] for j in range(90)))
-    with ThreadPoolExecutor(max_workers=12) as ex:
-        recs = list(ex.map(lambda K: run_crash_point(sub, K, base), Ks))
-    for rec in recs:
-        chk.cov["crash_points"] = chk.cov.get("crash_points", 0) + 1
-        by_user = stores_by_user(rec["d7"]) if "d7" in rec else {}
-        for kind, u, text in judge_crash(chk, sub, rec, None):
-            return rec["K"], text, u
+    # full crash pipeline on the sub-script: audit + the property's spec on the recovered stores
+    before = sum(1 for v in chk.violations if not v[2])
+    crash_suite(chk, sub, Ks, base, "search")
+    new = [v for v in chk.violations if not v[2]][before:]
+    if new:
+        return "reported"
     return None
 
 
@@ -892,6 +928,18 @@ def crash_suite(chk, script, Ks, base, label):
     if trouble:
         chk.notes.append("%s: reference run failed (harness): %s" % (label, trouble[:200]))
         return
+    ref_mailbox_names = {}
+    ref_msg = {}            # user -> message row id -> "step i (kind, token)"
+    for i, st in enumerate(script):
+        o = res0["obs"][plan0.marks[i][1]]
+        if "stores" in o and "users" in o:
+            for uu, stt in stores_by_user(o).items():
+                for mrow in (stt.get("mailboxes") or []):
+                    ref_mailbox_names.setdefault(uu, {})[mrow[0]] = mrow[2]
+                for mr in (stt.get("messages") or []):
+                    if mr[0] not in ref_msg.setdefault(uu, {}):
+                        tok = plan0.msgs.get(i, (None, "?"))[1]
+                        ref_msg[uu][mr[0]] = "the %s of step %d, acknowledged, body token %s" % (st["k"].upper(), i, tok)
     # extract the cop text: first component of each ostep tuple
     hist = {}
     for u, steps in per_user.items():
@@ -921,7 +969,33 @@ def crash_suite(chk, script, Ks, base, label):
             defs += "Definition %s := Eval vm_compute in eval_crash %s %s %s.\n" % (nm, C.coq_list(hist[u]), coq_oview(by_user.get(u)), ov2)
             names.append(nm)
             meta.append((ri, u))
+    # the property's own spec on every recovered store (Spec/Crash.v crash_spec_b via eval_spec):
+    # a = model operations of the store whose client command completed before the kill,
+    # j = model operations of the one client command in flight
+    spec_in = {}
+    for ri, rec in enumerate(recs):
+        if "d7" not in rec:
+            continue
+        done = [int(a["id"]) for a in rec["acks"]]
+        maxdone = max(done) if done else -1
+        inflight = None
+        for sid in range(maxdone + 1, len(script)):
+            if script[sid]["k"] != "restart":
+                inflight = sid
+                break
+        if not rec["killed"]:
+            maxdone, inflight = len(script), None
+        by_user = stores_by_user(rec["d7"])
+        for u in hist:
+            a = sum(1 for sid in step_index[u] if sid <= maxdone)
+            j = sum(1 for sid in step_index[u] if inflight is not None and sid == inflight)
+            spec_in[(ri, u)] = (a, j, inflight)
+            nm = "s_%d_%s" % (ri, u)
+            defs += "Definition %s := Eval vm_compute in eval_spec %s %d %d %s.\n" % (nm, C.coq_list(hist[u]), a, j, coq_oview(by_user.get(u)))
+            names.append(nm)
+            meta.append((ri, u))
     matches = {}
+    spec_out = {}
     if names:
         rc, log = coq_eval("C07_" + label, defs, names)
         if rc != 0:
@@ -929,12 +1003,23 @@ def crash_suite(chk, script, Ks, base, label):
             return
         for nm, (ri, u) in zip(names, meta):
             txt = C.parse_coq_list_out(log, nm) or ""
+            if nm.startswith("s_"):
+                groups = top_level_lists(txt)
+                if len(groups) != 5:
+                    chk.broken_obligation("could not read %s from Coq output: %r" % (nm, txt[:200]), {})
+                    continue
+                g = [parse_nums(x) for x in groups]
+                spec_out[(ri, u)] = {"lost_links": list(zip(g[0][0::3], g[0][1::3], g[0][2::3])), "lost_msgs": sorted(set(g[1])),
+                                     "lost_mailboxes": g[2], "phantom": list(zip(g[3][0::3], g[3][1::3], g[3][2::3])),
+                                     "incomplete": sorted(set(g[4]))}
+                continue
             m = re.match(r"\(\s*(\[.*?\])\s*,\s*(\[.*\])\s*\)\s*$", txt, re.S)
             if not m:
                 chk.broken_obligation("could not read %s from Coq output: %r" % (nm, txt[:200]), {})
                 continue
             tr = parse_nums(m.group(1))
             matches[(ri, u)] = (list(zip(tr[0::3], tr[1::3], tr[2::3])), parse_nums(m.group(2)))
+    spec_reported = {}
     for ri, rec in enumerate(recs):
         chk.cov["crash_points"] = chk.cov.get("crash_points", 0) + 1
         if rec["killed"]:
@@ -953,9 +1038,36 @@ def crash_suite(chk, script, Ks, base, label):
             elif reply_code(r, "t%d" % sid) == 0:
                 acked_ids.add(sid)
         cls_seen = set()
+        spec_failed = set()
+        for u in hist:
+            so = spec_out.get((ri, u))
+            if so and any(so.values()):
+                spec_failed.add(u)
+                a, j, inflight = spec_in[(ri, u)]
+                spec_reported[(u, inflight)] = spec_reported.get((u, inflight), 0) + 1
+                if spec_reported[(u, inflight)] > 2:
+                    chk.cov["spec_violations_not_listed"] = chk.cov.get("spec_violations_not_listed", 0) + 1
+                    continue
+                obs_names = {m[0]: m[2] for m in ((by_user_safe(rec, u) or {}).get("mailboxes") or [])}
+                ref_names = ref_mailbox_names.get(u, {})
+                what = []
+                for (mb, uid, msg) in so["lost_links"]:
+                    what.append("mailbox %r (row %d) is still listed but lost UID %d = message row %d (%s)" % (obs_names.get(mb, ref_names.get(mb, "?")), mb, uid, msg, ref_msg.get(u, {}).get(msg, "an acknowledged operation put it there")))
+                for msg in so["lost_msgs"]:
+                    what.append("message row %d (%s), listed after the last acknowledged operation, is listed nowhere" % (msg, ref_msg.get(u, {}).get(msg, "?")))
+                for mb in so["lost_mailboxes"]:
+                    what.append("mailbox %r (row %d) is gone" % (ref_names.get(mb, "?"), mb))
+                for (mb, uid, msg) in so["phantom"]:
+                    what.append("mailbox %r lists UID %d (message row %d) which neither the acknowledged state nor the command in flight put there" % (obs_names.get(mb, "?"), uid, msg))
+                for msg in so["incomplete"]:
+                    what.append("listed message row %d does not have all its header / part rows" % msg)
+                fl = ("the command in flight was %r (never acknowledged)" % (script[inflight],)) if inflight is not None else "no command was in flight (clean stop)"
+                chk.violation("acknowledged work lost: after a kill before storage I/O call %d the store of %s violates the property although %s: %s" % (
+                                  rec["K"], u, fl, "; ".join(what[:6])),
+                              dict(payload, user=u, acknowledged_model_ops=a, in_flight_step=inflight, verdict=so, store=by_user_safe(rec, u)))
         for u in hist:
             mm = matches.get((ri, u))
-            if mm is None:
+            if mm is None or u in spec_failed:
                 continue
             ks, cum = mm
             need = 0
@@ -987,6 +1099,21 @@ def crash_suite(chk, script, Ks, base, label):
     return recs
 
 
+def top_level_lists(txt):
+    """the top-level [...] groups of a printed Coq tuple of lists"""
+    out, depth, start = [], 0, None
+    for i, ch in enumerate(txt):
+        if ch == "[":
+            if depth == 0:
+                start = i
+            depth += 1
+        elif ch == "]":
+            depth -= 1
+            if depth == 0 and start is not None:
+                out.append(txt[start:i + 1])
+    return out
+
+
 def by_user_safe(rec, u):
     try:
         return stores_by_user(rec["d7"]).get(u)
@@ -1006,7 +1133,7 @@ def run(chk):
                 continue
             crash_suite(chk, w["script"], w["Ks"], base, "corpus")
         # ---- 2. statement-trace suite
-        n_tr = 40 if quick else 200
+        n_tr = 30 if quick else 200
         scripts = [gen_script(rng, rng.randint(8, 16)) for _ in range(n_tr)] + FIXED_CRASH_SCRIPTS
         nops = trace_suite(chk, scripts, base=base)
         # ---- 3. crash replay
@@ -1021,8 +1148,13 @@ def run(chk):
                 continue
             total_points += n
             if quick:
-                Ks = sorted(set([1, 2, n, n + 1] + [rng.randint(1, n) for _ in range(18)]
-                                + [rng.randint(max(1, n // 2), n) for _ in range(12)]))
+                Ks = set([1, 2, n, n + 1] + [rng.randint(1, n) for _ in range(8)]
+                         + [rng.randint(max(1, n // 2), n) for _ in range(6)])
+                if ci == TARGETED_SCRIPT:
+                    tk = step_windows(sc, acks, TARGETED_KINDS)
+                    chk.cov["targeted_crash_points"] = len(tk)
+                    Ks |= tk
+                Ks = sorted(Ks)
             else:
                 Ks = list(range(1, n + 2))
             crash_suite(chk, sc, Ks, base, "crash%d" % ci)
